@@ -338,7 +338,11 @@ func hashToField(m []byte, dst string, count uint64) []fieldElement {
 	// https://datatracker.ietf.org/doc/html/rfc9380#name-hashing-to-a-finite-field
 	l := uint64(48)
 	byteLen := count * l
-	uniformBytes, _ := expandMessageXMD(sha512.New(), m, dst, byteLen)
+	uniformBytes, err := expandMessageXMD(sha512.New(), m, dst, byteLen)
+	if err != nil {
+		// e.g. an empty domain separation tag, which RFC 9380 forbids
+		panic("edwards25519: hash to field: " + err.Error())
+	}
 
 	u := make([]fieldElement, count)
 	for i := range count {
